@@ -74,16 +74,29 @@ impl<const N: usize> Sodg<N> {
                         break;
                     }
                 }
-                self.vertices.get_mut(v2).unwrap().branch = ours;
+                if vtx1.persistence == Persistence::Stored {
+                    *self.stores.get_mut(ours).unwrap() += 1;
+                }
+                let vtx2 = self.vertices.get_mut(v2).unwrap();
+                vtx2.branch = ours;
+                if vtx2.persistence == Persistence::Stored {
+                    *self.stores.get_mut(ours).unwrap() += 1;
+                }
                 self.branches.get_mut(ours).unwrap().push(v2);
             } else {
                 vtx1.branch = theirs;
+                if vtx1.persistence == Persistence::Stored {
+                    *self.stores.get_mut(theirs).unwrap() += 1;
+                }
                 self.branches.get_mut(theirs).unwrap().push(v1);
             }
         } else {
             let vtx2 = self.vertices.get_mut(v2).unwrap();
             if vtx2.branch == BRANCH_STATIC {
                 vtx2.branch = ours;
+                if vtx2.persistence == Persistence::Stored {
+                    *self.stores.get_mut(ours).unwrap() += 1;
+                }
                 self.branches.get_mut(ours).unwrap().push(v2);
             }
         }
@@ -121,7 +134,7 @@ impl<const N: usize> Sodg<N> {
         let fresh = vtx.persistence != Persistence::Stored;
         vtx.persistence = Persistence::Stored;
         vtx.data = d.clone();
-        if fresh {
+        if fresh && vtx.branch != BRANCH_STATIC {
             *self.stores.get_mut(vtx.branch).unwrap() += 1;
         }
         #[cfg(debug_assertions)]
@@ -162,6 +175,11 @@ impl<const N: usize> Sodg<N> {
                 let d = vtx.data.clone();
                 vtx.persistence = Persistence::Taken;
                 let branch = vtx.branch;
+                if branch == BRANCH_STATIC {
+                    #[cfg(debug_assertions)]
+                    trace!("#data: data of ν{v} retrieved");
+                    return Some(d);
+                }
                 let s = self.stores.get_mut(branch).unwrap();
                 *s -= 1;
                 if *s == 0 {
